@@ -1,5 +1,6 @@
 """C13 -- greedy search never beats the exhaustive optimum."""
 from . import searchfam, search_oracles as so
+from . import common
 from .c01 import RULE
 
 
@@ -19,7 +20,7 @@ def no_budget_share(ck, tier):
   """Extra cases inside the property's scope (no budget / share constraint)."""
   from . import search
   out = []
-  for k in range(60 if tier == 'quick' else 1200):
+  for k in range(common.sz(tier, 60, 1200)):
     c = search.gen_case(ck.seed * 13 + 100000 + k, tier)
     c['want_share'] = c['want_budget'] = False
     out.append(c)
